@@ -366,7 +366,7 @@ def cases(ctx):
         cand = []
         for name in sorted(by):
             xs = by[name]
-            cap = 12
+            cap = 10
             fixed = [x for x in xs if (x[0], x[1]) in [(n, a) for n, a in CORPUS]]
             rest = [x for x in xs if x not in fixed]
             cand += fixed + (rest if len(rest) <= cap else rng.sample(rest, cap))
